@@ -1,11 +1,14 @@
 ---- MODULE Trace_Conc ----
 (* Concurrent histories against LazyInit's SPECIFICATION variant ("once"): whatever the interleaving, every call on a shared key /
    scheme / suite returns what the same call returns on an object used by one goroutine only (r.want), nothing panics, and the
-   happens-before analysis of the run (Go race detector) found no unsynchronised access while the kind was exercised. *)
+   happens-before analysis of the run (Go race detector) found no unsynchronised access while the kind was exercised.
+   "args" lines: a call whose byte-slice arguments are windows of one larger buffer (canaries around them, spare capacity behind them that
+   runs on into the next argument) leaves arguments and canaries untouched and returns what it returns on private exactly-sized copies. *)
 EXTENDS Integers, Sequences, TLC, Json
 VARIABLES l, bad
 OkLine(r) == CASE r.ev = "conc" -> r.panics = 0 /\ r.res = r.want
                [] r.ev = "race" -> ~r.race
+               [] r.ev = "args" -> r.panics = 0 /\ r.args_intact /\ r.canaries_intact /\ r.same_result      \* byte-slice arguments are read only, and only within their length
                [] OTHER -> FALSE
 INSTANCE LinesTrace WITH Ok <- OkLine
 ASSUME TLCSet(1, 0) /\ TLCSet(2, {}) /\ TLCSet(3, ndJsonDeserialize("trace.ndjson"))
